@@ -23,8 +23,9 @@ EXTRACT = [(PF, "decode_tile_row", 1), (PF, "decode_tile", 1), (PF, "start_decod
 FRAGMENTS = [
     ("Source/Lib/Decoder/Codec/EbDecLF.c", "while (*sb_lf_completed_in_prev_row < MIN((x_sb_index + 2), pic_width_in_sb - 1)) ;"),
     ("Source/Lib/Decoder/Codec/EbDecLF.c", "*sb_lf_completed_in_row = x_sb_index;"),
-    ("Source/Lib/Decoder/Codec/EbDecCdef.c", "if (sb_fbc == pic_width_in_sb - 1) nsync = 0; while (*cdef_completed_in_prev_row < (sb_fbc + nsync)) ;"),
-    ("Source/Lib/Decoder/Codec/EbDecCdef.c", "*cdef_completed_in_row = sb_fbc;"),
+    ("Source/Lib/Decoder/Codec/EbDecCdef.c", "if (sb_fbc == pic_width_in_sb - 1) nsync = 0;"),
+    ("Source/Lib/Decoder/Codec/EbDecCdef.c", "while (*cdef_completed_in_prev_row < (uint32_t)(sb_fbc + 1) + nsync) ;"),
+    ("Source/Lib/Decoder/Codec/EbDecCdef.c", "*cdef_completed_in_row = (uint32_t)(sb_fbc + 1);"),
     ("Source/Lib/Decoder/Codec/EbDecRestoration.c", "if (col_y >= tile_w_y - w_y) nsync = 0; while (*sb_lr_completed_in_prev_row < (sb_col_y + nsync)) ;"),
     ("Source/Lib/Decoder/Codec/EbDecRestoration.c", "*sb_lr_completed_in_row = sb_col_y;"),
     (PP, "memset(lf_frame_info->sb_lf_completed_in_row, -1, picture_height_in_sb * sizeof(int32_t));"),
@@ -40,9 +41,12 @@ FRAGMENTS = [
     (PP, "(volatile int32_t *)&dec_mt_frame_data->cdef_completed_for_row_map[sb_row]; while (!*start_lr) ;"),
     ("Source/Lib/Decoder/Codec/EbDecParseObu.c", "memset(sb_recon_completed_in_row, 0, tile_num_sb_rows * sizeof(uint32_t));"),
 ]
-KEY_DOUBLE_FREE = "C09-mt-deinit-double-free"
-KEY_CDEF_W1 = "C09-cdef-w1-no-row-sync"
 KEY_LR_DET = "C09-lr-mt-deterministic-mismatch"
+KEY_LR_RACE = "C09-lr-mt-boundary-save-race"
+# Set to True once the three loop-restoration fixes (hooks/fix-c09-lr-mt-last-stripe-boundary.patch,
+# hooks/fix-c09-cdef-waits-own-lf-row-map.patch, hooks/fix-c09-lf-waits-recon-two-rows-up.patch) are in /repo: the labelled probes then
+# become ordinary regression streams (any mismatch is a VIOLATION) and the seed-dependent streams switch restoration ON.
+LR_FIXED = False
 THREADS = [1, 2, 3, 4, 8, 16]
 
 
@@ -261,17 +265,15 @@ def run_protocol(chk, ops, model_ok):
 def run_walks(chk, walks):
     mexe = C.ensure_driver()
     out = par_lines([mexe, "decwf"], walks, max(2, min(4, C.NCPU // 4)))
-    bad, w1_races, w1_runs, lead_cdef_recon, lr_w1 = [], 0, 0, 0, 0
+    bad, w1_runs, lead_cdef_recon, lead_cdef_save, lead_lf_save = [], 0, 0, 0, 0
     for l in out:
         f = l.split()
         if f[0] == "walk":
             kind, W, H, en, n = int(f[1]), int(f[3]), int(f[4]), int(f[5]), int(f[6])
             d = kv(f[9:])
-            w1 = kind == 2 and W == 1
-            if w1 and H >= 2 and n >= 2 and en:
+            if W == 1 and H >= 2 and n >= 2 and en:
                 w1_runs += 1
-                w1_races += 1 if d["safe_viol"] != "0" else 0
-            if (d["safe_viol"] != "0" and not w1) or d["twice"] != "0" or d["missing"] != "0" or d["unfinished_rows"] != "0" or d["runaway"] != "false":
+            if d["safe_viol"] != "0" or d["twice"] != "0" or d["missing"] != "0" or d["unfinished_rows"] != "0" or d["runaway"] != "false":
                 bad.append(l)
         elif f[0] == "fwalk":
             colon = f.index(":")
@@ -281,61 +283,83 @@ def run_walks(chk, walks):
             lfW, cdefW, lrW, lfEn, cdefEn, lrEn = a[2 + tc + tr: 8 + tc + tr]
             d = kv(f[colon + 1:])
             H = int(d["H"])
-            if d["lf_early"] != "0" or d["cdef_early_lf"] != "0" or d["unfinished_rows"] != "0" or d["runaway"] != "false" or int(d["lr_rows_done"]) != H:
+            if (d["lf_early"] != "0" or d["cdef_early_lf"] != "0" or d["lr_early"] != "0" or d["unfinished_rows"] != "0" or d["runaway"] != "false"
+                    or int(d["lr_rows_done"]) != H):
                 bad.append(l)
-            if d["lr_early"] != "0":
-                if cdefW == 1:
-                    lr_w1 += 1
-                else:
-                    bad.append(l)
             if d["cdef_early_recon"] != "0":
                 if lfEn == 0 and tr >= 2:
                     lead_cdef_recon += 1
                 else:
                     bad.append(l)
+            lead_cdef_save += 1 if d["cdef_before_lf_save"] != "0" else 0
+            if d["lf_save_before_recon"] != "0":
+                if lfEn == 0 and tr >= 2:
+                    lead_lf_save += 1
+                else:
+                    bad.append(l)
         else:
             bad.append(l)
-    return {"n": len(out), "bad": bad, "w1_races": w1_races, "w1_runs": w1_runs, "lead_cdef_recon": lead_cdef_recon, "lr_w1": lr_w1}
+    return {"n": len(out), "bad": bad, "w1_runs": w1_runs, "lead_cdef_recon": lead_cdef_recon, "lead_cdef_save": lead_cdef_save,
+            "lead_lf_save": lead_lf_save}
 
 
 # ----------------------------------------------------------------------------- end-to-end streams
 def stream_list(chk):
+    """Streams of the end-to-end oracle.  The encoder harness runs preset 8, where loop restoration is OFF unless
+    enable_restoration_filtering=1 is given (EbResourceCoordinationProcess.c:189).  With restoration ON the multi-threaded decoder has
+    recorded defects (deterministic: height % 64 == 0 or > 56; racy: boundary lines saved too late / too early).  While LR_FIXED is False
+    the seed-dependent streams therefore keep restoration OFF and the defects are probed only by streams labelled probe=... with a fixed
+    seed and content; with LR_FIXED = True every restoration stream is an ordinary regression case."""
     rng = chk.rng
     S = []
 
-    def add(name, w, h, n=3, bd=8, dec16=0, seed=None, content=None, **cfg):
-        sd, ct = rng.range(1, 10**6), rng.choice([0, 2, 4, 4, 5])
+    def add(name, w, h, n=3, bd=8, dec16=0, seed=None, content=None, probe=None, **cfg):
+        sd, ct = rng.range(1, 10**6), rng.choice([0, 2, 4, 4, 5])     # always drawn: the other streams do not depend on the probes
+        lr_on = cfg.get("enable_restoration_filtering", 0) == 1 or cfg.get("enc_mode", 8) <= 6
+        if LR_FIXED:
+            probe, seed, content = None, None, None
+        assert LR_FIXED or probe or not lr_on, name
         S.append({"name": name, "w": w, "h": h, "n": n, "bd": bd, "dec16": dec16, "cfg": cfg, "seed": seed if seed is not None else sd,
-                  "content": content if content is not None else ct})
-    add("one-sb-wide", 64, 256)                                    # pic_width_in_sb == 1, 4 SB rows
-    add("tiles-2cols", 192, 128, tile_columns=1)
-    add("portrait-odd-tilerows", 136, 200, tile_rows=1)
-    add("tenbit", 128, 128, bd=10)
+                  "content": content if content is not None else ct, "probe": probe, "lr_on": lr_on})
+
+    def lr(extra=None):          # restoration ON for seed-dependent streams only once the fixes are in
+        d = {"enable_restoration_filtering": 1} if LR_FIXED else {}
+        d.update(extra or {})
+        return d
+    add("one-sb-wide", 64, 256)                                    # pic_width_in_sb == 1, 4 SB rows (regression: CDEF row sync, c7d082d)
+    add("tiles-2cols", 192, 128, **lr({"tile_columns": 1}))
+    add("portrait-odd-tilerows", 136, 200, **lr({"tile_rows": 1}))
+    add("tenbit", 128, 128, bd=10, **lr())
+    add("lr-mt-probe-stripe", 192, 128, n=4, seed=77, content=4, probe="lr", enable_restoration_filtering=1)
+    add("lr-mt-probe-race", 136, 200, n=3, seed=99518, content=4, probe="lr-race", tile_rows=1, enable_restoration_filtering=1)
     if chk.tier != "quick":
-        add("tiles-2x2", 256, 192, tile_columns=1, tile_rows=1)
-        add("one-sb-wide-tall", 64, 448, n=2)
-        add("one-sb-high", 320, 64, tile_columns=1)
-        add("one-sb", 64, 64)
-        add("odd-both", 200, 136)
-        add("tenbit-tiles-16bitpipe", 192, 192, bd=10, dec16=1, tile_columns=1)
+        add("tiles-2x2", 256, 192, **lr({"tile_columns": 1, "tile_rows": 1}))
+        add("one-sb-wide-tall", 64, 448, n=2, **lr())
+        add("one-sb-wide-3rows", 64, 136, **lr())
+        add("one-sb-high", 320, 64, **lr({"tile_columns": 1}))
+        add("one-sb", 64, 64, **lr())
+        add("odd-both", 200, 136, **lr())
+        add("tenbit-tiles-16bitpipe", 192, 192, bd=10, dec16=1, **lr({"tile_columns": 1}))
         add("eightbit-16bitpipe", 136, 136, dec16=1)
-        add("no-lf-tilerows", 192, 256, tile_rows=1, disable_dlf_flag=1)
-        add("no-lf-2x2", 256, 320, tile_rows=1, tile_columns=1, disable_dlf_flag=1)
-        add("no-cdef", 192, 192, cdef_level=0)
+        add("no-lf-tilerows", 192, 256, **lr({"tile_rows": 1, "disable_dlf_flag": 1}))
+        add("no-lf-2x2", 256, 296, **lr({"tile_rows": 1, "tile_columns": 1, "disable_dlf_flag": 1}))
+        add("no-cdef", 192, 168, **lr({"cdef_level": 0}))
         add("no-restoration", 192, 192, enable_restoration_filtering=0)
-        add("low-qp", 192, 256, qp=8, tile_rows=1)
+        add("low-qp", 192, 256, **lr({"qp": 8, "tile_rows": 1}))
         add("high-qp", 256, 128, qp=62)
         add("screen", 256, 192, screen_content_mode=1)
-        add("tiles-4cols", 512, 128, tile_columns=2)
-        add("tiles-4rows", 128, 512, tile_rows=2, n=2)
+        add("tiles-4cols", 512, 128, **lr({"tile_columns": 2}))
+        add("tiles-4rows", 128, 488, n=2, **lr({"tile_rows": 2}))
         add("long", 128, 192, n=12)
-        # preset 2 selects restoration configurations the default preset (8) does not: multi-threaded loop restoration
-        add("m2-restoration-one-sb", 64, 64, n=4, seed=1025, content=4, enc_mode=2, hierarchical_levels=2)
-        add("m2-restoration", 192, 128, n=3, enc_mode=2, hierarchical_levels=2)
+        add("lr-mt-probe-preset2-one-sb", 64, 64, n=4, seed=1025, content=4, probe="lr", enc_mode=2, hierarchical_levels=2)
+        add("lr-mt-probe-race-notiles", 136, 136, n=3, seed=99518, content=4, probe="lr-race", enable_restoration_filtering=1)
+        add("lr-mt-probe-race-no-lf", 136, 200, n=3, seed=99518, content=4, probe="lr-race", tile_rows=1, disable_dlf_flag=1,
+            enable_restoration_filtering=1)
+        add("lr-mt-probe-preset2-tools", 136, 104, n=3, seed=4242, content=4, probe="lr-race", enc_mode=2, hierarchical_levels=2)
         for i in range(4):
             w = rng.choice([72, 96, 128, 160, 200, 264, 328])
-            h = rng.choice([72, 96, 136, 192, 264, 328])
-            add("random%d" % i, w, h, bd=rng.choice([8, 8, 10]), tile_columns=rng.below(2), tile_rows=rng.below(2))
+            h = rng.choice([72, 96, 136, 168, 232, 296])
+            add("random%d" % i, w, h, bd=rng.choice([8, 8, 10]), **lr({"tile_columns": rng.below(2), "tile_rows": rng.below(2)}))
     return S
 
 
@@ -482,29 +506,42 @@ def judge_e2e(chk, results):
         stats["hang_runs"] += len(hangs)
         replay_line = "input: e2e %s" % json.dumps(s, sort_keys=True)
         if badfree:
-            only_teardown = all(int(d.get("badfree_decode", 0)) == 0 for _, d in badfree)
-            mt_only = all(not t.startswith("threads=1 ") for t, _ in badfree)
-            key = KEY_DOUBLE_FREE if (only_teardown and mt_only) else None
-            viol.append((key, "svt_av1_dec_deinit frees a block that is not live (double / invalid free) after a multi-threaded decode",
+            viol.append((None, "the decoder frees a block that is not live (double / invalid free)",
                          "%s\n%s\n%d of %d runs; first: %s %s\n(the harness skips the bad free; without the tracker glibc aborts / corrupts the heap: "
                          "'free(): double free', 'corrupted double-linked list', SIGSEGV in svt_av1_dec_deinit)\n"
-                         "site: dec_system_resource_init allocates dec_mod_ctxt_arr with EB_MALLOC_DEC (registered in the memory map that "
-                         "svt_av1_dec_deinit frees) and also calls free(dec_mod_ctxt_arr) itself (EbDecProcess.c:368-370, 412)" %
+                         "regression of c2a0b82? (dec_system_resource_init registered dec_mod_ctxt_arr in the memory map AND freed it itself)" %
                          (replay_line, desc, len(badfree), len(rec["runs"]), badfree[0][0], badfree[0][1])))
         if diffs:
             mt_ok = [tuple(r["dec"]) for r in rec["runs"] if r["threads"] > 1 and r["decoded"] is not None]
             deterministic = len(set(mt_ok)) == 1 and len(mt_ok) >= 3
-            if deterministic:
-                key = KEY_LR_DET
-                why = ("EVERY multi-threaded run (all thread counts, all perturbation seeds) produced the same pictures, and they differ from the "
-                       "single-thread result: not a race but a different computation in the multi-threaded path; bisected (64x64, enc_mode=2, "
-                       "hierarchical_levels=2, content=4, seed=1025) to loop restoration: with enable_restoration_filtering=0 the results are equal "
-                       "(dec_av1_loop_restoration_filter_frame_mt / dec_av1_loop_restoration_filter_row vs dec_av1_loop_restoration_filter_frame)\n")
-            elif one_sb_wide and s["h"] > 64:
-                key = KEY_CDEF_W1
-                why = ("picture one superblock wide: svt_cdef_sb_row_mt's row sync `while (*cdef_completed_in_prev_row < (sb_fbc + nsync))` never waits "
-                       "when pic_width_in_sb == 1 (unsigned counter memset to 0, nsync == 0 at the last column; EbDecCdef.c:520-526) — the race "
-                       "theorem C09.cdef_w1_race exhibits in the model; the results vary from run to run\n")
+            lr_det_why = ("EVERY multi-threaded run (all thread counts, all perturbation seeds) produced the same pictures, and they differ from the "
+                          "single-thread result: not a race.  Root cause: dec_save_lf_boundary_lines_sb_row (EbDecProcess.c:634-703, called from "
+                          "dec_av1_loop_filter_frame_mt) saves the deblocked boundary lines of ONE restoration stripe per 64 lines of an SB row; the "
+                          "stripes are offset upwards by 8 lines, so when height % 64 == 0 or > 56 the last SB row also holds the start of one more "
+                          "stripe, whose 'above' lines are never saved (the single-thread dec_av1_loop_restoration_save_boundary_lines walks all "
+                          "stripes); loop restoration of the last 8 picture lines then filters with stale context.  Needs loop restoration ON "
+                          "(enc_mode <= 6 or enable_restoration_filtering=1).  Proposed fix: hooks/fix-c09-lr-mt-last-stripe-boundary.patch\n")
+            lr_race_why = ("loop restoration is ON and the results vary from run to run: the deblocked boundary lines that loop restoration uses as "
+                           "stripe context are saved by the LF workers at the wrong moments.  (a) CDEF row r starts when lf_row_map[r+1] is set (by the "
+                           "worker of LF row r+2), but the boundary lines of stripe r — two lines of SB row r that CDEF row r overwrites — are saved "
+                           "by the worker of LF row r+1 AFTER its row body, with nothing ordering that save before the gate (EbDecProcess.c:875-888 vs "
+                           "999-1006); (b) the save for stripe r-1 reads two lines of SB row r-2, whose reconstruction is not awaited when the loop "
+                           "filter is off for the frame and row r-2 lies in another tile row (EbDecProcess.c:841-859).  Both are visible in the Lean "
+                           "frame model (stage_order_cdef gives only 'columns complete' for LF row r+1; coverage fields model_lead_*).  With the "
+                           "proposed fixes hooks/fix-c09-cdef-waits-own-lf-row-map.patch + hooks/fix-c09-lf-waits-recon-two-rows-up.patch 168 of "
+                           "168 decodes of seven such streams equal the single-thread result (before: 30-90% differ at threads >= 5)\n")
+            if s.get("probe") == "lr" and deterministic:
+                key, why = KEY_LR_DET, lr_det_why
+            elif s.get("probe") in ("lr", "lr-race"):
+                key, why = KEY_LR_RACE, lr_race_why
+            elif one_sb_wide and s["h"] > 64 and not deterministic:
+                key = None
+                why = ("picture one superblock wide, results vary from run to run: regression of c7d082d? (svt_cdef_sb_row_mt must wait for the "
+                       "previous CDEF row also when pic_width_in_sb == 1)\n")
+            elif s.get("lr_on"):
+                key = None
+                why = ("loop restoration is ON for this stream: %s family met outside its labelled probes (%s)\n" %
+                       ((KEY_LR_DET, "all runs agree") if deterministic else (KEY_LR_RACE, "runs differ")))
             else:
                 key, why = None, ""
             viol.append((key, "multi-threaded decode produces pictures that differ from the single-thread result",
@@ -560,7 +597,7 @@ def run(chk, protocol_ops=None, streams=None):
                 or d["rowmap_bad"] != "0" or d["started_bad"] != "0" or d["foreign_mutex"] != "0" or d["semaphore_waits"] != "0"):
             real_fail.append((op.strip(), l))
     # ---- model-only walks (sanity of the LF / CDEF / LR transcriptions and of the frame model)
-    wres = run_walks(chk, gen_walks(chk)) if pr.build_ok and protocol_ops is None else {"n": 0, "bad": [], "w1_races": 0, "w1_runs": 0, "lead_cdef_recon": 0, "lr_w1": 0}
+    wres = run_walks(chk, gen_walks(chk)) if pr.build_ok and protocol_ops is None else {"n": 0, "bad": [], "w1_runs": 0, "lead_cdef_recon": 0, "lead_cdef_save": 0, "lead_lf_save": 0}
     t1 = time.time()
     # ---- end-to-end: real decoder, thread counts x perturbation seeds
     sl = streams if streams is not None else stream_list(chk)
@@ -582,12 +619,18 @@ def run(chk, protocol_ops=None, streams=None):
     chk.cov["parser_mode_histogram"] = {str(k): v for k, v in sorted(hist_pmode.items())}
     chk.cov["tiles_per_op_histogram"] = {str(k): v for k, v in sorted(hist_tiles.items())}
     chk.cov["model_walks"] = wres["n"]
-    chk.cov["model_cdef_w1_races_seen"] = "%d of %d random schedules of a one-column CDEF stage violate the neighbour order (theorem cdef_w1_race)" % (wres["w1_races"], wres["w1_runs"])
-    chk.cov["model_lr_before_cdef_complete_w1"] = wres["lr_w1"]
+    chk.cov["model_one_column_stage_walks"] = wres["w1_runs"]
     chk.cov["model_lead_cdef_before_recon_when_lf_disabled"] = (
         "%d random frame schedules with loop filter disabled and >= 2 tile rows enter a CDEF row before the reconstruction of that row has "
         "finished in the other tile row (hypothesis F.lf.en of stage_order_cdef is forced); the real decoder was run on such streams "
         "(disable_dlf_flag=1, tile_rows=1) in the thorough tier" % wres["lead_cdef_recon"])
+    chk.cov["model_lead_cdef_before_lf_row_saved_boundary_lines"] = (
+        "%d random frame schedules enter CDEF row r while LF row r+1 has finished its columns but not yet stored lf_row_map[r] (in C: not yet "
+        "saved the deblocked boundary lines of stripe r, which CDEF row r overwrites): stage_order_cdef gives 'fin' only for row r+2; real "
+        "defect when loop restoration is on (finding %s)" % (wres["lead_cdef_save"], KEY_LR_RACE))
+    chk.cov["model_lead_lf_save_before_recon_two_rows_up"] = (
+        "%d random frame schedules with loop filter disabled and >= 2 tile rows let LF row r publish (save stripe r-1's boundary lines, two "
+        "of them in SB row r-2) before the reconstruction of row r-2 is finished (finding %s)" % (wres["lead_lf_save"], KEY_LR_RACE))
     chk.cov["e2e"] = estats
     chk.cov["e2e_streams"] = [{"name": r["stream"]["name"], "w": r["stream"]["w"], "h": r["stream"]["h"], "bd": r["stream"]["bd"], "cfg": r["stream"]["cfg"],
                                "runs": len(r["runs"])} for r in eres]
@@ -602,7 +645,7 @@ def run(chk, protocol_ops=None, streams=None):
             chk.sample({"stream": r["stream"]["name"], "threads1": r["runs"][0]["dec"][:3], "last_run": {k: r["runs"][-1][k] for k in ("threads", "pseed", "rc", "deinit")}})
     chk.assumptions += [
         "W, H >= 1 per tile / stage; at least one worker per stage (n >= 1)",
-        "PassSound (proved for recon, LF, LR at every width and for CDEF at W >= 2; FALSE for CDEF at W = 1: theorem cdef_w1_race, real defect)",
+        "PassSound is proved for all four stages at every width (pass_sound), so no theorem carries a hypothesis on the spin tests",
         "H-footprint for the equality with the single-thread result",
         "the spin-waits read plain `volatile` ints (a data race in the C11 memory model; the model is sequentially consistent): not decidable here",
         "intra-block-copy blocks add a wait on an EARLIER row of the same tile (EbDecProcessBlock.c:176-213); it only delays a step and cannot "
